@@ -159,6 +159,12 @@ func (ex *Explorer) worker(id int) {
 		return
 	}
 	w.solver = s
+	switch ex.Solver {
+	case "cvc5-int":
+		s.AltKind = "z3"
+	default:
+		s.AltKind = "cvc5-int"
+	}
 	defer func() {
 		s.Close()
 		ex.mu.Lock()
